@@ -62,6 +62,16 @@ fn streams(n: usize, both: bool) -> Vec<StreamSpec> {
     ]
 }
 
+const WITNESS_NAMES_C04: &[(&str, u64)] = &[
+    ("writer_ran_out_of_credit", xfer::W_CREDIT_ZERO),
+    ("acknowledge_sent", xfer::W_ACK_SENT),
+    ("reset_seen", xfer::W_RESET),
+    ("some_execution_completed_all_futures", xfer::W_ALL_DONE),
+    ("pushes_of_two_streams_adjacent_on_wire", xfer::W_TWO_STREAMS_INTERLEAVED),
+    ("multiplexor_dropped_with_streams_alive", xfer::W_MUX_DROPPED),
+    ("ran_with_all_tracing_spans_and_events_enabled", xfer::W_TRACING_ON),
+];
+
 pub fn run(args: &Args) -> Report {
     let mut rep = Report::new("C04", &args.tier, "psim", "model_checking");
     let thorough = args.thorough();
@@ -112,17 +122,37 @@ pub fn run(args: &Args) -> Report {
         let label = format!("tiny, all interleavings | {}", cfg.describe());
         cases.push(Case { try_unbounded: true, max_k: 1, label, exec: Box::new(move |r| xfer::exec(&cfg, &or, r)) });
     }
+    // The same with a `tracing` subscriber installed that enables everything (RUST_LOG=trace in the shipped binaries):
+    // the connection task is a plain future ("works in any async runtime"); this harness, like an application that
+    // polls it under `block_on` / in a `select!` / on another executor, polls it OUTSIDE a spawned tokio task, and what
+    // its instrumentation evaluates when spans are enabled must not stop it.
+    for (a, b) in [((2u32, 1u32), (2u32, 1u32)), ((1, 3), (4, 8))] {
+        let cfg = XferCfg { a, b, cap: 0, streams: streams(2 * a.0.max(b.0) as usize + 3, true), stream_buffer: 1, one_byte_frames: false, dgram_pingpong: 2, dgram_buffer: 1, drop_mux_when_writers_done: None, horizon: 20_000 };
+        let label = format!("every tracing span and event enabled | {}", cfg.describe());
+        cases.push(Case {
+            try_unbounded: false,
+            max_k: if thorough { 1 } else { 0 },
+            label,
+            exec: Box::new(move |r| {
+                let (mut out, produced) = crate::dbgtrace::with_all_on(|| xfer::exec(&cfg, &or, r));
+                if produced > 0 {
+                    out.witnesses |= xfer::W_TRACING_ON;
+                }
+                out
+            }),
+        });
+    }
     let plan = Plan {
         ks: if thorough { vec![0, 1, 2] } else { vec![0, 1] },
         env: 0,
         fault: 0,
         total_wall: Duration::from_secs(if thorough { 1500 } else { 50 }),
         max_execs_per_case: if thorough { 400_000 } else { 50_000 },
-        required_witnesses: xfer::W_CREDIT_ZERO | xfer::W_ACK_SENT,
+        required_witnesses: xfer::W_CREDIT_ZERO | xfer::W_ACK_SENT | xfer::W_TRACING_ON,
         adaptive: thorough,
-        witness_names: super::c02::WITNESS_NAMES,
+        witness_names: WITNESS_NAMES_C04,
     };
-    rep.rule = "psim: per (rwnd,threshold) pair on each side independently x buffer sizes: stream 1 carries a burst of 2*max(rwnd)+3 frames to a reader that reads to EOF; stream 2 has an absent reader; stream 3 is requested by the other side; a 2-datagram ping-pong runs alongside. Every fair schedule with <= k deviations runs to quiescence; quiescence with an unfinished future other than stream 2's parked ends (and the echo loop) is a stall, the step horizon is a livelock".into();
+    rep.rule = "psim: per (rwnd,threshold) pair on each side independently x buffer sizes: stream 1 carries a burst of 2*max(rwnd)+3 frames to a reader that reads to EOF; stream 2 has an absent reader; stream 3 is requested by the other side; a 2-datagram ping-pong runs alongside. Every fair schedule with <= k deviations runs to quiescence; quiescence with an unfinished future other than stream 2's parked ends (and the echo loop) is a stall, the step horizon is a livelock; two configurations are run again with a tracing subscriber that enables every span and event (the connection task's instrumentation is then evaluated, outside a spawned tokio task as everywhere in this harness)".into();
     rep.assumptions = vec![
         "fairness is structural: an execution ends only when no task is runnable and nothing is in flight".into(),
         "datagram progress is checked with datagram_buffer_size >= number of datagrams in flight (a full buffer may legitimately drop)".into(),
